@@ -167,7 +167,7 @@ def main():
             "enable": "environment variable STACKSCOPE_VERIF=1 set for the worker interpreters by vlib/workers.py (read once at "
                       "import of stackscope._glue / stackscope._lowlevel_cpython_311); pure Python, nothing to build",
             "baseline_off_cmd": "cd /repo && env -u STACKSCOPE_VERIF /venv/bin/python -m pytest -ra -q -p no:cacheprovider --timeout=900 --continue-on-collection-errors",
-            "source_commits": ["f6dd1b3", "3ffb9f2", "c544811"],
+            "source_commits": ["f6dd1b3", "3ffb9f2", "c544811", "13e04b1"],
             "add_only": True,
         },
         "engines": [{
